@@ -31,6 +31,9 @@ type c20Case struct {
 	M     int       `json:"m"`
 	R     int       `json:"r"`
 	Fails []c20Fail `json:"fails"`
+	// Resend: after the Send with the scripted failures, the same messages are sent again on a fresh connection to
+	// a server that accepts everything; the verdict must then be that of the second call
+	Resend bool `json:"resend,omitempty"`
 }
 
 var c20TextNames = []string{"esc-at-start", "plain", "triple-inside", "multiline-esc", "esc-not-at-start"}
@@ -254,6 +257,32 @@ func c20Exec(r *vf.Run, k c20Case) (keys, whats []string) {
 			add(fmt.Sprintf("delivered/pos=%s", pos), fmt.Sprintf("message %d failed at %s: IsDelivered()=%v", i, pos, m.IsDelivered()))
 		}
 	}
+	if k.Resend {
+		sess2 := &refsmtp.Session{Host: hx.Host, Caps: caps}
+		conn2 := refsmtp.NewConn(sess2)
+		rig2 := &hx.Rig{Mk: func(n int) *refsmtp.Conn { return conn2 }}
+		cl2, err := mail.NewClient(hx.Host, mail.WithDialContextFunc(rig2.Dial), mail.WithHELO("client.example.test"), mail.WithTLSPolicy(mail.NoTLS))
+		if err != nil {
+			r.HarnessError("C20 NewClient: %v", err)
+			return
+		}
+		err2 := cl2.DialAndSendWithContext(context.Background(), msgs...)
+		if err2 != nil {
+			add("resend/error", fmt.Sprintf("re-sending the batch to an accepting server failed: %v", err2))
+		}
+		for i, m := range msgs {
+			if m.HasSendError() {
+				add("resend/stale-send-error", fmt.Sprintf("message %d was accepted on the second Send but still reports the SendError of the first: %v", i, m.SendError()))
+			}
+			if !m.IsDelivered() {
+				add("resend/not-delivered", fmt.Sprintf("message %d was accepted on the second Send but IsDelivered()==false", i))
+			}
+		}
+		if len(sess2.Commits) != len(msgs) {
+			add("resend/commit-count", fmt.Sprintf("second Send: server committed %d of %d messages", len(sess2.Commits), len(msgs)))
+		}
+		return
+	}
 	// joined error: one entry per failed message
 	var entries []error
 	if sendErr != nil {
@@ -342,6 +371,14 @@ func init() {
 									cases = append(cases, c20Case{ESC: esc, M: 3, R: 3, Fails: []c20Fail{{Msg: msg, Pos: p1, Mask: 3, Code: c1, Text: text}, {Msg: msg, Pos: "RSET", Code: c2, Text: 1 - text}}})
 								}
 							}
+						}
+					}
+				}
+				// histories: the failed batch is sent again to an accepting server
+				for _, p1 := range []string{"MAIL", "RCPT", "DATA", "EOD", "RSET"} {
+					for _, c1 := range []int{451, 550} {
+						for msg := 0; msg < 3; msg++ {
+							cases = append(cases, c20Case{ESC: esc, M: 3, R: 3, Resend: true, Fails: []c20Fail{{Msg: msg, Pos: p1, Mask: 2, Code: c1, Text: 0}}})
 						}
 					}
 				}
